@@ -2,6 +2,7 @@
 from .. import env
 
 PROPERTY = "C16"
+CROSS_CHECK = True      # thorough: dumped assertion queries are re-decided by z3 4.8.12 and cvc5 1.0
 LEVEL = "model_checking"
 STUBS = ["array -> SymArray ('i' count-min, 'I' counting Bloom) raising OverflowError outside the typecode range, as array.array does",
          "Struct -> SymStruct raising struct.error outside the field range"]
